@@ -1,6 +1,6 @@
 (* C09: case vocabulary, executable model runner and property predicate.
    The model follows the code WITH the repairs F01, F02, F03, F06, F12, F17. *)
-From OIDC Require Export Lib C09_Json C09_Codec C09_Verifier C09_Handler C09_Client C09_Crypto.
+From OIDC Require Export Lib C09_Json C09_Codec C09_Verifier C09_Handler C09_Client C09_Crypto C09_Header C09_Auth.
 
 (* per-case oracle tables, filled by the harness with the real functions' answers
    for every string of the document *)
@@ -10,6 +10,10 @@ Definition time_of (t : tables) (s : string) : bool :=
   match assoc s (tb_time t) with Some b => b | None => false end.
 Definition lang_of (t : tables) (s : string) : nat :=
   match assoc s (tb_lang t) with Some n => n | None => 2 end.
+
+(* per-case oracle: does the provider accept this string as an access token *)
+Definition opens_of (l : list (string * bool)) (s : string) : bool :=
+  match assoc s l with Some b => b | None => false end.
 
 Inductive dkind :=
 | DAudience | DTime | DLocale | DLocales | DBool | DSDA
@@ -57,6 +61,9 @@ Inductive input :=
 | IExit (x : xshape)                                 (* valid authenticated request whose x_fault-th storage call fails *)
 | IHint (c : hcaller) (e : entry) (h : hint)         (* signed id_token_hint with those claims at end_session / authorize *)
 | ICode (x : cshape)                                 (* redemption of a live code: stored challenge x verifier sent x client kind *)
+| IBearer (e : entry) (h : string) (opens : list (string * bool))
+    (* GET /userinfo with the Authorization header h; opens = which strings the provider accepts as an access token *)
+| IAuth (a : ashape)                                 (* otherwise valid request with live artefacts: assertion type x assertion x Basic x private_key_jwt option *)
 | IRoute (e : entry) (class : nat) (req : string)    (* arbitrary route x method x header x body; class = generator family (>0);
                                                         req = digest of the request bytes (identifies the case; never inspected) *)
 | IClient (h : helper) (a : answer) (expect : string) (t : tables)
@@ -81,6 +88,8 @@ Definition model (i : input) : observed :=
   | IExit x => OHandler (xhandler true x)
   | ICode x => OHandler (chandler true x)
   | IHint c _ h => OHint (hint_caller true c h)
+  | IBearer _ h opens => OHandler (bearer_userinfo (fun s => s) (opens_of opens) false h)
+  | IAuth a => OHandler (ahandler all_return a)
   | IRoute _ _ _ => ORoute RSingle
   | IClient h a e t => OClient (call (time_of t) (lang_of t) true h a e)
   | IDevice dev tok t => OClient (device_flow (time_of t) (lang_of t) true dev tok)
@@ -100,6 +109,8 @@ Definition spec (i : input) (o : observed) : bool :=
   | IExit _, OHandler h => single h
   | ICode _, OHandler h => single h
   | IHint _ _ _, OHint r => match r with HRefused | HAccepted => true | _ => false end
+  | IBearer _ _ _, OHandler h => single h
+  | IAuth _, OHandler h => single h
   | IRoute _ _ _, ORoute k => match k with RSingle => true | _ => false end
   | IClient _ a _ _, OClient c =>      (* a 200 body that is not a JSON document must come back as an error *)
       match c with
@@ -116,6 +127,7 @@ Definition spec (i : input) (o : observed) : bool :=
 Definition wf (i : input) : bool :=
   match i with
   | IHandler s => shape_wf s
+  | IAuth a => ashape_wf a
   | _ => true
   end.
 
@@ -178,6 +190,10 @@ Definition path (i : input) (o : observed) : nat :=
   | IExit x, OHandler h => match h with OFault => 17 | OGrant => 18 + (if x_fault x =? 0 then 0 else 1) | _ => 10 end
   | ICode x, OHandler h => match h with OGrant => 40 | OResp _ EInvalidGrant => 41 | _ => 42 end
   | IHint _ _ h, OHint r => match r with HRefused => 50 | HAccepted => 51 + (match h_iat h with TPast => 0 | _ => 1 end) | _ => 53 end
+  | IBearer _ h _, OHandler o =>
+      match o with OGrant => 60 | OResp _ _ => if count "Bearer " h =? 1 then 61 else 62 | _ => 63 end
+  | IAuth a, OHandler o =>
+      match o with OGrant => 64 | OResp _ _ => if sent (au_assert a) then 65 else 66 | _ => 67 end
   | IRoute _ c _, _ => 20 + c
   | IClient _ a _ _, OClient c =>
       if negb (a_ok a) then 11
